@@ -68,12 +68,45 @@ def run(out, tier):
     import random
     rng = random.Random(s * 3 + 3)
     for b in behs:
+        b["raw_ids"] = rng.random() < 0.5       # collectors hand out small ids that overlap between collectors (as real ones do)
         b["wrap"] = [rng.choice(["plain", "plain", "box", "arc"]) for _ in b["acc"]]
         for st in b["steps"]:
             if st["op"] == "drop" and rng.random() < 0.3:
                 st["unwind"] = True
+    for i in range(30 if quick else 300):
+        behs.append(snippet(rng, i))
     lines, found = execute(behs, "c03")
     judge(out, behs, lines, found)
+
+
+def snippet(rng, i):
+    """hand-shaped programs for corners the simulation reaches rarely"""
+    t = 1
+    lib = rng.choice(["tracing", "futures"])
+    kind = i % 3
+    if kind == 0:
+        # a future instrumented with a DISABLED span while another span is entered: no collector call may result
+        steps = [{"op": "switch", "t": t, "d": 1}, {"op": "new", "t": t, "h": 1, "tgt": "a", "pk": "root", "p": 1}, {"op": "enter", "t": t, "h": 1, "g": 1},
+                 {"op": "new", "t": t, "h": 2, "tgt": "x", "pk": "ctx", "p": 2}, {"op": "instrument", "t": t, "h": 2, "f": 1, "lib": lib},
+                 {"op": "poll", "t": t, "h": 0, "f": 1}, {"op": "poll", "t": t, "h": 0, "f": 1},
+                 {"op": rng.choice(["drop_fut", "into_inner"]), "t": t, "h": 0, "f": 1}, {"op": "exit", "t": t, "h": 0, "g": 1}, {"op": "drop", "t": t, "h": 1}]
+        return {"src": "snippet-disabled-instrument", "acc": [False, True, True], "alias": [False, False, False], "steps": steps}
+    if kind == 1:
+        # the process-wide maximum level changes between an enter and its exit (and back)
+        lo, hi = rng.choice([0, 1, 2]), 5
+        ent = rng.choice([("enter", "exit"), ("entered", "exit_entered"), ("scope_begin", "scope_end")])
+        steps = [{"op": "switch", "t": t, "d": 1}, {"op": "new", "t": t, "h": 1, "tgt": "a", "pk": "root", "p": 1},
+                 {"op": ent[0], "t": t, "h": 1, "g": 1}, {"op": "maxlevel", "t": t, "lvl": lo}, {"op": ent[1], "t": t, "h": 0, "g": 1}]
+        if ent[0] != "entered":
+            steps += [{"op": ent[0], "t": t, "h": 1, "g": 1}, {"op": "maxlevel", "t": t, "lvl": hi}, {"op": ent[1], "t": t, "h": 0, "g": 1},
+                      {"op": "maxlevel", "t": t, "lvl": lo}, {"op": "record", "t": t, "h": 1}, {"op": "drop", "t": t, "h": 1}]
+        return {"src": "snippet-maxlevel", "acc": [True, True, True], "alias": [False, False, False], "steps": steps}
+    # handles of two collectors that handed out the SAME id: a.clone_from(&b)
+    steps = [{"op": "switch", "t": t, "d": 1}, {"op": "new", "t": t, "h": 1, "tgt": "a", "pk": "root", "p": 1},
+             {"op": "switch", "t": t, "d": 2}, {"op": "new", "t": t, "h": 2, "tgt": "a", "pk": "root", "p": 2},
+             {"op": "clone_from", "t": t, "h": 1, "h2": 2, "hf": 3},
+             {"op": "enter", "t": t, "h": 3, "g": 1}, {"op": "exit", "t": t, "h": 0, "g": 1}, {"op": "drop", "t": t, "h": 3}, {"op": "drop", "t": t, "h": 2}]
+    return {"src": "snippet-clone-from", "acc": [True, True, True], "alias": [False, False, False], "raw_ids": True, "steps": steps}
 
 
 def replay(out, path):
